@@ -125,6 +125,7 @@ def main(argv):
     known = findings.load_known(pid)
     evals = 0
     digests = set()
+    enumerated = 0
     samples = []
     counters = {}
     failures = []
@@ -145,7 +146,8 @@ def main(argv):
             continue
         evals += res["evals"]
         digests |= res["digests"]
-        per_shard[sh["name"]] = {"evaluations": res["evals"], "nontrivial": len(res["digests"]), "wall_s": round(res.get("wall", 0), 2)}
+        enumerated += res.get("enumerated_distinct", 0)
+        per_shard[sh["name"]] = {"evaluations": res["evals"], "nontrivial": len(res["digests"]) + res.get("enumerated_distinct", 0), "wall_s": round(res.get("wall", 0), 2)}
         samples.append(list(res["samples"]))
         for k, v in res["counters"].items():
             counters[k] = counters.get(k, 0) + v
@@ -207,7 +209,7 @@ def main(argv):
             i += 1
     cov = {
         "evaluations": int(evals),
-        "distinct_nontrivial": len(digests),
+        "distinct_nontrivial": len(digests) + enumerated,
         "rule": mod.RULE,
         "samples": jsonable(samples) if samples else [],
         "class_histogram": {k: counters[k] for k in sorted(counters)},
@@ -239,7 +241,7 @@ def main(argv):
     for ln in lines:
         print(ln)
     print("%s %s seed=%d: evaluations=%d distinct_nontrivial=%d known_hits=%d violations=%d errors=%d wall=%.1fs" % (
-        pid, tier, seed, evals, len(digests), sum(known_hits.values()), n_viol, len(errors), wall))
+        pid, tier, seed, evals, len(digests) + enumerated, sum(known_hits.values()), n_viol, len(errors), wall))
     if errors:
         for e in errors[:5]:
             print("HARNESS-ERROR property=%s: %s" % (pid, e[-3000:]))
